@@ -48,3 +48,25 @@ package dns
 //@   opt no-safety
 //@   requires c != nil && m != nil && co != nil
 //@   exit id: err == nil ==> r != nil && r.Id == m.Id
+
+// WriteMsg: the octets handed to Write are exactly the ones produced for this message - signed with the stored
+// request MAC (replaced by the new one) when the message carries a TSIG stub (and, on the server, a provider is
+// configured), packed as is otherwise; a failure to produce them is returned and nothing is written
+//@ func (*Conn).WriteMsg [C12 C11]
+//@   opt no-safety
+//@   requires co != nil && m != nil
+//@   callsite "TsigGenerateWithProvider" signed: arg0 == m && arg2 == co.tsigRequestMAC && !arg3 && callres("IsTsig") != nil
+//@   callsite "Pack" plain: arg0 == m && callres("IsTsig") == nil
+//@   callsite "Write" octets: err == nil && (called("Pack") ? same(arg1, callres("Pack", 0)) : same(arg1, callres("TsigGenerateWithProvider", 0)))
+//@   stored at "out, co.tsigRequestMAC, err = TsigGenerateWithProvider(m, co.tsigProvider(), co.tsigRequestMAC, false)" mac: value == callres("TsigGenerateWithProvider", 1)
+//@   exit err: !called("Write") ==> ret0 != nil
+//@ func (*response).WriteMsg [C12 C11 C14]
+//@   opt no-safety
+//@   requires w != nil && m != nil
+//@   callsite "TsigGenerateWithProvider" signed: arg0 == m && arg1 == w.tsigProvider && arg2 == w.tsigRequestMAC && arg3 == w.tsigTimersOnly && callres("IsTsig") != nil && !w.closed
+//@   callsite "Pack" plain: arg0 == m && !w.closed
+//@   callsite "Write" octets: err == nil && !w.closed && same(arg0, data)
+//@   assert at "_, err = w.writer.Write(data)@1" tsigdata: same(data, callres("TsigGenerateWithProvider", 0)) && !called("Pack")
+//@   assert at "_, err = w.writer.Write(data)@2" packdata: same(data, callres("Pack", 0))
+//@   stored at "data, w.tsigRequestMAC, err = TsigGenerateWithProvider(m, w.tsigProvider, w.tsigRequestMAC, w.tsigTimersOnly)" mac: value == callres("TsigGenerateWithProvider", 1)
+//@   exit err: !called("Write") ==> ret0 != nil
